@@ -134,6 +134,7 @@ CORPUS = {
             'import setuptools\n\nsetuptools.setup(\n    name="demo",\n    install_requires=[\n        "requests; python_version > \'3.8\'",  # marker\n        "rich[jupyter]",\n    ],\n    extras_require={"dev": ["pytest"]},\n)\n',
             'from setuptools import setup\r\n\r\nsetup(\r\n    name="demo",\r\n    install_requires=[\r\n        "requests",\r\n    ],\r\n)\r\n',
             "from setuptools import setup\n\nsetup(\n    name='demo',\n    install_requires=[\n        'requests',\n    ],\n)",
+            'from setuptools import setup; setup(name="demo", install_requires=["requests"])\n',
         ],
         "same": ['from setuptools import setup\n\nsetup(\n    name="demo",\n    install_requires=[\n        "{PKG}",\n    ],\n)\n',
                  "from setuptools import setup\n\nsetup(name='demo', install_requires=['requests', '{PKG}>=0.0.1'])\n"],
